@@ -17,7 +17,7 @@ import (
 	"time"
 
 	_ "verifharness/cat"
-	_ "verifharness/checks"
+	"verifharness/checks"
 	"verifharness/core"
 )
 
@@ -41,6 +41,8 @@ func main() {
 		os.Exit(2)
 	}
 	switch os.Args[1] {
+	case "dbg-sync":
+		checks.DebugSync()
 	case "list":
 		for _, id := range core.IDs() {
 			fmt.Println(id, len(core.Lookup(id).Units("quick")), len(core.Lookup(id).Units("thorough")))
@@ -64,6 +66,7 @@ func main() {
 		i, _ := strconv.Atoi(os.Args[4])
 		n, _ := strconv.Atoi(os.Args[5])
 		ctx := core.RunShard(ch, os.Args[3], seed(), i, n, "", os.Getenv("VERIF_UNIT"))
+		checks.CleanupTmp()
 		ctx.Notes, _ = core.JSONSafe(ctx.Notes).(map[string]any)
 		js, err := json.Marshal(ctx)
 		if err != nil {
@@ -100,6 +103,7 @@ func main() {
 					hit = true
 				}
 			}
+			checks.CleanupTmp()
 			fmt.Printf("replay run %d of unit %s: %d findings, recorded violation reproduced: %v\n", rep+1, f.Unit, len(ctx.Findings), hit)
 			if hit {
 				rc = 1
